@@ -4,7 +4,7 @@ import PyaModel.Spec.D01
 /-! Line protocol driver for C01.
 in : `run <prog> <args>`   prog = `(prog (<T>…) <stmt>…)`, args = `(args <o>…)` (s-expressions, Core/Sexp.lean)
         prog may carry `(rets <T>…)` (declared return types of the helper functions) after the parameter types
-        stmt = `(asg x e)` | `(if t (<stmt>…) (<stmt>…))` | `(ret e)` | `(unp (x…) e)`
+        stmt = `(asg x e)` | `(if t (<stmt>…) (<stmt>…))` | `(ret e)` | `(unp (x…) e)` | `(for x e (<stmt>…))`
         expr = `(lit o)` | `(var x)` | `(tup e…)` | `(lst e…)` | `(sub e i)` | `(ite t a b)` | `(call f e…)`
         test = `(isnone x)` | `(notnone x)` | `(not t)`
      `cls <skeleton tokens>`   (Spec/D01.lean)     `call <shared> <seqForm> <valSeq>`     `conv <isListOrTuple> <seqForm> <valSeq>`
@@ -41,6 +41,7 @@ mutual
 partial def toStmt : Sexp → Option Stmt
   | .node [.atom "asg", .atom x, e] => do some (.assign (← x.toNat?) (← toExpr e))
   | .node [.atom "ret", e] => (toExpr e).map Stmt.ret
+  | .node [.atom "for", .atom x, e, .node b] => do some (.forS (← x.toNat?) (← toExpr e) (← toStmts b))
   | .node [.atom "unp", .node xs, e] => do
     some (.unpack (← xs.mapM fun x => match x with | .atom a => a.toNat? | _ => none) (← toExpr e))
   | .node [.atom "if", t, .node b, .node e] => do some (.ifs (← toTest t) (← toStmts b) (← toStmts e))
@@ -70,7 +71,7 @@ def showPath (p : Path) : String := ".".intercalate (p.reverse.map toString)
 
 def showFlags (f : Flags) : String :=
   let l := (if f.noneReject then ["noneReject"] else []) ++ (if f.litEq then ["literalEqMerge"] else []) ++
-    (if f.frag then ["frag"] else [])
+    (if f.loopNotFix then ["loopNotFix"] else []) ++ (if f.frag then ["frag"] else [])
   if l.isEmpty then "-" else ",".intercalate l
 
 def showOutcome : Outcome → String
